@@ -123,6 +123,11 @@ pub struct HState {
     pub errors_since_tick: Cell<u64>,
     pub no_progress_limit: u64,
     pub no_progress: Option<Rc<Cell<bool>>>,
+
+    // ---- additions for C06 (None = Texlang's default font quantities, 12pt each) ----
+    /// overrides of the font quantities behind the units `em` and `ex`
+    pub em_width: Option<common::Scaled>,
+    pub ex_height: Option<common::Scaled>,
 }
 
 impl HState {
@@ -145,6 +150,12 @@ impl TexlangState for HState {
     #[inline]
     fn end_line_char(&self) -> Option<char> {
         endlinechar::end_line_char(self)
+    }
+    fn em_width(&self) -> common::Scaled {
+        self.em_width.unwrap_or(common::Scaled::ONE * 12)
+    }
+    fn ex_height(&self) -> common::Scaled {
+        self.ex_height.unwrap_or(common::Scaled::ONE * 12)
     }
     #[inline]
     fn post_macro_expansion_hook(
